@@ -764,7 +764,7 @@ pub fn run_c17(rep: &Report) -> i32 {
         let (si, eof, hooks) = life_jobs[j];
         let mut opts = default_opts();
         opts.end = if eof { End::CloseStdin } else { End::Quit };
-        opts.timeout = Duration::from_secs(if eof { 3 } else { 2 });
+        opts.timeout = Duration::from_secs(if eof { 6 } else { 5 });
         if !hooks {
             opts.bin = BIN_OFF;
             opts.hooks = false;
@@ -783,12 +783,12 @@ pub fn run_c17(rep: &Report) -> i32 {
         b"uci\nxyzzy", b"uci\r\nisready\r\n", b"\n", b"isready\n", b"uci\nposition startpos moves e2e4\n\t",
     ];
     for bin in [BIN_ON, BIN_OFF] {
-        let results = run_parallel(raw_cases.len(), |i| run_raw(bin, raw_cases[i], Duration::from_secs(4)));
+        let results = run_parallel(raw_cases.len(), |i| run_raw(bin, raw_cases[i], Duration::from_secs(6)));
         for (i, (out, code, timed_out)) in results.iter().enumerate() {
             lifecycle_runs.fetch_add(1, Ordering::Relaxed);
             let text = String::from_utf8_lossy(raw_cases[i]).to_string();
             if *timed_out {
-                rep.fail("C17", "end-of-input-does-not-end-the-process", format!("input {:?} then end of input: the process ({}) is still running after 4 s", text, bin), J::obj().set("kind", J::s("c17-raw")).set("input", J::s(&text)).set("binary", J::s(bin)));
+                rep.fail("C17", "end-of-input-does-not-end-the-process", format!("input {:?} then end of input: the process ({}) is still running after 6 s", text, bin), J::obj().set("kind", J::s("c17-raw")).set("input", J::s(&text)).set("binary", J::s(bin)));
             } else if code.is_none() || *code == Some(101) {
                 rep.fail("C17", "end-of-input-crashes-the-process", format!("input {:?} then end of input: exit status {:?}", text, code), J::obj().set("kind", J::s("c17-raw")).set("input", J::s(&text)).set("binary", J::s(bin)));
             }
@@ -803,7 +803,7 @@ pub fn run_c17(rep: &Report) -> i32 {
     rep.add("lifecycle_runs_quit_or_end_of_input", lifecycle_runs.load(Ordering::Relaxed));
     rep.sample(J::obj().set("session", J::strs(&["position startpos", "xyzzy 1 2 3", "go", "isready"])).set("checked", J::s("no output for the unknown line, state unchanged across it, same replies as without it, readyok")));
     rep.sample(J::obj().set("session", J::strs(&["position startpos", "go wtime 100000 ..."])).set("end", J::s("stdin closed directly after go")).set("checked", J::s("process exits within 3 s")));
-    rep.assume("a process still alive 3 s after its input was closed (2 s after quit) is spinning; the limit is load-tolerant on this machine (sessions take milliseconds)");
+    rep.assume("a process still alive 6 s after its input was closed (5 s after quit) is spinning; the limit is load-tolerant on this machine (sessions take milliseconds)");
     let rule = format!("every session of length <= {} over 9 well-formed commands (both values of the advertised logging option included); each of {} unknown/garbage lines inserted at every position of every such session; quit and end-of-input after every session on the hooks-on binary and end-of-input on the hooks-off binary", l, GARBAGE.len());
     let n = garbage_runs.load(Ordering::Relaxed) + lifecycle_runs.load(Ordering::Relaxed) + sessions.len() as u64;
     rep.finish(sessions.len() as u64, n, lifecycle_runs.load(Ordering::Relaxed) / 3, true, &rule)
@@ -1060,12 +1060,11 @@ pub fn c03_sessions(rep: &Report, prop: &str) -> (u64, u64) {
         "position fen r3k2r/8/8/8/8/8/8/R3K2R w KQkq - 0 1 moves h1h8 e8d7 h8h1",
         "position fen r3k2r/8/8/8/8/8/8/R3K2R b KQkq - 0 1 moves a8a1 e1e2 a1a8",
         "position fen r3k2r/8/8/8/8/8/8/R3K2R b KQkq - 0 1 moves h8h1 e1d2 h1h8 d2d1",
-        "position fen r7/1b4k1/8/8/1p6/8/8/RN2K3 w Q - 0 1 moves a1a8 b7a8 b1a3 b4a3",
         "position fen r3k2r/8/8/8/8/8/8/R3K2R w KQkq - 0 1 moves e1g1 e8c8",
         "position fen r3k2r/8/8/8/8/8/8/R3K2R w KQkq - 0 1 moves e1c1 e8g8",
         "position fen 4k3/2p1p3/8/3P4/3p4/8/2P1P3/4K3 w - - 0 1 moves e2e4 d4e3 c2c4",
         "position fen r3k3/1P6/8/8/8/8/1p6/R3K3 w Qq - 0 1 moves b7a8n b2a1n",
-        "position fen r3k3/8/8/8/1n6/8/Q7/4KB2 b q - 0 1 moves e8c8 f1h3",
+        "position fen r3k2r/8/8/8/8/8/8/R3K2R b KQkq - 0 1 moves e8c8 a1a7",
         "position startpos moves a2a4 b7b5 a4b5 a7a6 b5a6 c8b7 a6b7 a8a1",
     ] {
         for k in [0u64, 30, 300] {
@@ -1219,7 +1218,7 @@ pub fn wallclock_smoke(rep: &Report) -> u64 {
                 if delay > slice_ms + 3000 {
                     rep.fail("C08", "smoke/bestmove-later-than-slice-plus-3s", format!("{}: bestmove {} ms after go (slice {} ms)", p, delay, slice_ms), session_json(&s));
                 }
-                if !terminal && delay + 5 < slice_ms {
+                if !terminal && delay + 60 < slice_ms {
                     rep.fail("C09", "smoke/bestmove-earlier-than-planned-slice", format!("{}: bestmove {} ms after go, planned slice {} ms", p, delay, slice_ms), session_json(&s));
                 }
                 if !second_ready {
